@@ -1,0 +1,14 @@
+//go:build verif
+
+// Verification hook (build tag "verif"): exported alias of the netconfig filter.
+package client
+
+import (
+	"context"
+
+	"git.sr.ht/~adrian-blx/psa-dhcp/lib/libif"
+)
+
+func VerifFilterNetconfig(configureRoute bool, conf *libif.Ifconfig) {
+	(&mclient{configureRoute: configureRoute}).filterNetconfig(context.Background(), conf)
+}
